@@ -78,8 +78,9 @@ where
 
         // 0. capacity.
         {
+            // `reserve` accepts additional elements count, and len is `self.start` now.
             let any_vec_raw = unsafe{any_vec_ptr.any_vec_raw_mut()};
-            any_vec_raw.reserve(new_len);
+            any_vec_raw.reserve(new_len - any_vec_raw.len);
         }
 
         // 1. drop elements.
